@@ -672,10 +672,12 @@ fn corpus_matches() -> Vec<(String, Prog)> {
 }
 
 /// Class representatives for "the order in which something is WRITTEN is not the order in which
-/// its type declares it": a literal of `R` in each of the six orders of its three fields, with
-/// the type's name, anonymous under an annotation, anonymous on the right of an assignment, and
-/// anonymous with a type of its own; effects one level down (a later-written field assigns what
-/// an earlier-written one read; a field leaves the function).
+/// its type declares it": a literal of every record type — `R` (three fields), `P` (two),
+/// the generic `G[T]` (three) and `H[T]` (two) at `T = i32` — in EVERY order of its fields (six /
+/// two), with the type's name, anonymous under an annotation, anonymous on the right of an
+/// assignment, and (not for the generic ones) anonymous with a type of its own; effects one level
+/// down (a later-written field assigns what an earlier-written one read; a field leaves the
+/// function).
 fn corpus_records() -> Vec<(String, Prog)> {
     use E::{Assign, Bin, Block, Field, Host, If1, Int, Record, Ret, Var};
     let b = |e: E| Box::new(e);
@@ -687,71 +689,87 @@ fn corpus_records() -> Vec<(String, Prog)> {
     };
     // emit3(4, x3.b, x3.c) - x3.a: every field of the result is observed
     let observe = || Bin(Op::Sub, b(Host(H_EMIT3, vec![Int(4), Field(b(Var(3)), 0), Field(b(Var(3)), 1)])), b(Field(b(Var(3)), 2)));
-    let order = |perm: &[usize; 3]| perm.iter().map(|i| FIELDS[*i]).collect::<Vec<_>>().join(",");
+    // … of a record with two fields: emit3(4, x3.b, x3.c)
+    let observe2 = || Host(H_EMIT3, vec![Int(4), Field(b(Var(3)), 0), Field(b(Var(3)), 1)]);
+    let order = |perm: &[usize]| perm.iter().map(|i| FIELDS[*i]).collect::<Vec<_>>().join(",");
     let mut out = vec![];
-    for perm in PERMS.iter() {
-        let lit = |anon: bool| Record(anon, vec![(perm[0], em(1, Var(0))), (perm[1], em(2, Var(1))), (perm[2], em(3, Int(7)))]);
-        out.push((
-            format!("record literal R {{ {} }}: fields run as written", order(perm)),
-            main(Blk { stmts: vec![S::Let(3, lit(false))], last: Some(b(observe())) }, vec![T::R]),
-        ));
-        out.push((
-            format!("anonymous record literal {{ {} }} under `let x: R`: fields run as written", order(perm)),
-            main(Blk { stmts: vec![S::Let(3, lit(true))], last: Some(b(observe())) }, vec![T::R]),
-        ));
-        out.push((
-            format!("anonymous record literal {{ {} }} assigned to a variable of type R: fields run as written", order(perm)),
-            main(
-                Blk { stmts: vec![S::Let(3, Record(false, vec![(0, Int(0)), (1, Int(0)), (2, Int(0))])), S::Do(Assign(3, b(lit(true))))], last: Some(b(observe())) },
-                vec![T::R],
-            ),
-        ));
-        out.push((
-            format!("anonymous record literal {{ {} }} with a type of its own: fields run as written", order(perm)),
-            main(Blk { stmts: vec![], last: Some(b(Field(b(lit(true)), perm[1]))) }, vec![]),
-        ));
-        // a later-written field assigns the variable an earlier-written field has read, and a
-        // still later one reads it again
-        out.push((
-            format!("record literal R {{ {} }}: a later-written field assigns what an earlier one read", order(perm)),
-            main(
-                Blk {
-                    stmts: vec![S::Let(
-                        3,
-                        Record(false, vec![(perm[0], Var(0)), (perm[1], Block(Blk { stmts: vec![S::Do(Assign(0, b(Int(100))))], last: Some(b(em(1, Var(0)))) })), (perm[2], Bin(Op::Add, b(Var(0)), b(Var(1))))]),
-                    )],
-                    last: Some(b(observe())),
-                },
-                vec![T::R],
-            ),
-        ));
-        // the field written second may leave the function: the first ran, the third does not
-        out.push((
-            format!("record literal R {{ {} }}: the second field as written returns", order(perm)),
-            main(
-                Blk {
-                    stmts: vec![S::Let(
-                        3,
-                        Record(
-                            false,
-                            vec![
-                                (perm[0], em(1, Var(0))),
-                                (perm[1], Block(Blk { stmts: vec![S::Do(If1(b(Var(2)), Blk { stmts: vec![S::Do(Ret(b(em(2, Int(5)))))], last: None }))], last: Some(b(em(3, Var(1)))) })),
-                                (perm[2], em(5, Int(1))),
-                            ],
-                        ),
-                    )],
-                    last: Some(b(observe())),
-                },
-                vec![T::R],
-            ),
-        ));
+    for (ty, tname, n) in RECORDS.iter().copied() {
+        let named = Rk { ty, anon: false };
+        let anon = Rk { ty, anon: true };
+        let generic = matches!(ty, T::G | T::H);
+        let obs = || if n == 3 { observe() } else { observe2() };
+        // the expressions of a literal, in written order, cut to the number of fields
+        let cut = |perm: &[usize], es: Vec<E>| -> Vec<(usize, E)> { perm.iter().copied().zip(es).collect() };
+        for perm in perms_of(n) {
+            let perm = &perm[..];
+            let lit = |rk: Rk| Record(rk, cut(perm, vec![em(1, Var(0)), em(2, Var(1)), em(3, Int(7))]));
+            out.push((
+                format!("record literal {tname} {{ {} }}: fields run as written", order(perm)),
+                main(Blk { stmts: vec![S::Let(3, lit(named))], last: Some(b(obs())) }, vec![ty]),
+            ));
+            out.push((
+                format!("anonymous record literal {{ {} }} under `let x: {}`: fields run as written", order(perm), ty.roto()),
+                main(Blk { stmts: vec![S::Let(3, lit(anon))], last: Some(b(obs())) }, vec![ty]),
+            ));
+            out.push((
+                format!("anonymous record literal {{ {} }} assigned to a variable of type {}: fields run as written", order(perm), ty.roto()),
+                main(
+                    Blk { stmts: vec![S::Let(3, Record(named, (0..n).map(|i| (i, Int(0))).collect())), S::Do(Assign(3, b(lit(anon))))], last: Some(b(obs())) },
+                    vec![ty],
+                ),
+            ));
+            if !generic {
+                out.push((
+                    format!("anonymous record literal {{ {} }} with a type of its own: fields run as written", order(perm)),
+                    main(Blk { stmts: vec![], last: Some(b(Field(b(lit(anon)), perm[1]))) }, vec![]),
+                ));
+            }
+            // a later-written field assigns the variable an earlier-written field has read, and a
+            // still later one reads it again
+            out.push((
+                format!("record literal {tname} {{ {} }}: a later-written field assigns what an earlier one read", order(perm)),
+                main(
+                    Blk {
+                        stmts: vec![S::Let(
+                            3,
+                            Record(named, cut(perm, vec![Var(0), Block(Blk { stmts: vec![S::Do(Assign(0, b(Int(100))))], last: Some(b(em(1, Var(0)))) }), Bin(Op::Add, b(Var(0)), b(Var(1)))])),
+                        )],
+                        last: Some(b(obs())),
+                    },
+                    vec![ty],
+                ),
+            ));
+            // the field written second may leave the function: the first ran, the third does not
+            out.push((
+                format!("record literal {tname} {{ {} }}: the second field as written returns", order(perm)),
+                main(
+                    Blk {
+                        stmts: vec![S::Let(
+                            3,
+                            Record(
+                                named,
+                                cut(
+                                    perm,
+                                    vec![
+                                        em(1, Var(0)),
+                                        Block(Blk { stmts: vec![S::Do(If1(b(Var(2)), Blk { stmts: vec![S::Do(Ret(b(em(2, Int(5)))))], last: None }))], last: Some(b(em(3, Var(1)))) }),
+                                        em(5, Int(1)),
+                                    ],
+                                ),
+                            ),
+                        )],
+                        last: Some(b(obs())),
+                    },
+                    vec![ty],
+                ),
+            ));
+        }
     }
     // the target of a (compound) assignment is a field: `x3.f op= rhs` reads `x3.f` before `rhs`
     // runs, whether `rhs` assigns that field or the whole record, and stores into the record
     // `x3` holds afterwards; `x3.f = rhs` runs `rhs`, then stores
-    let start = || S::Let(3, Record(false, vec![(0, Var(0)), (1, Var(1)), (2, Int(3))]));
-    let other = || Record(true, vec![(2, Int(7)), (0, Int(8)), (1, Int(9))]);
+    let start = || S::Let(3, Record(RK_R, vec![(0, Var(0)), (1, Var(1)), (2, Int(3))]));
+    let other = || Record(RK_RA, vec![(2, Int(7)), (0, Int(8)), (1, Int(9))]);
     for f in 0..FIELDS.len() {
         let name = FIELDS[f];
         out.push((
@@ -827,7 +845,7 @@ fn corpus_clauses() -> Vec<(&'static str, Prog)> {
             main(
                 T::I,
                 Blk {
-                    stmts: vec![S::Let(3, Record(false, vec![(0, em(1, Var(0))), (1, em(2, Var(1))), (2, em(6, Int(3)))])), S::Let(4, List(vec![em(3, Int(1)), em(4, Int(2)), em(5, Int(3))]))],
+                    stmts: vec![S::Let(3, Record(RK_R, vec![(0, em(1, Var(0))), (1, em(2, Var(1))), (2, em(6, Int(3)))])), S::Let(4, List(vec![em(3, Int(1)), em(4, Int(2)), em(5, Int(3))]))],
                     last: Some(b(Field(b(Var(3)), 1))),
                 },
                 vec![T::R, T::L],
